@@ -197,6 +197,12 @@ def generate(rng, tier: str, i: int, prop: str) -> dict:
     if calls and rng.random() < 0.2:
         k = rng.choice(chosen)
         calls.insert(rng.randrange(len(calls) + 1), _gen_call(rng, k, tier))
+    if rng.random() < 0.12:
+        bad = _gen_call(rng, "pix", tier)
+        bad["op"] = "pix_bad"
+        bad["variant"] = rng.choice(["bin_edges", "missing_coord", "no_variances"])
+        bad["pix"]["n"] = min(bad["pix"]["n"], 50)
+        calls.insert(rng.randrange(len(calls) + 1), bad)
     n_pix = 0
     for c in calls:
         if c["op"] == "pix":
@@ -352,6 +358,20 @@ def apply_calls(sc, sqw, builder, calls: list[dict], inputs: list | None = None)
                                                         en=exps[0].en) for e in exps[1:]]
             keep += [pix, *exps]
             builder = builder.add_pixel_data(pix, experiments=exps, n_dims=c["n_dims"])
+        elif op == "pix_bad":
+            # a call the builder must refuse; afterwards it must behave as if never made
+            pix = make_pixels(sc, c["pix"])
+            if c["variant"] == "bin_edges":
+                n = c["pix"]["n"]
+                pix.coords["u1"] = sc.array(dims=["obs"], values=np.arange(n + 1.0), unit=c["pix"]["units"]["u1"])
+            elif c["variant"] == "missing_coord":
+                del pix.coords["ien"]
+            else:
+                pix = sc.DataArray(sc.values(pix.data), coords=dict(pix.coords))
+            exps = [make_experiment(sc, sqw, e) for e in c["runs"]]
+            _, exc = core.capture(builder.add_pixel_data, pix, experiments=exps, n_dims=c["n_dims"])
+            if exc is None:
+                raise _Unmodelable("add_pixel_data accepted " + c["variant"])
         elif op == "instrument":
             s = c["source"]
             inst = sqw.SqwIXNullInstrument(
@@ -377,11 +397,17 @@ def apply_calls(sc, sqw, builder, calls: list[dict], inputs: list | None = None)
     return builder
 
 
+class _Unmodelable(Exception):
+    """The library accepted a call the reference model treats as refused."""
+
+
 def final_calls(calls: list[dict]) -> dict:
-    """Reference model of the builder: the last call of each kind wins."""
+    """Reference model of the builder: the last call of each kind wins; a refused call
+    (pix_bad) leaves no trace."""
     out = {}
     for c in calls:
-        out[c["op"]] = c
+        if c["op"] != "pix_bad":
+            out[c["op"]] = c
     return out
 
 
@@ -563,10 +589,15 @@ class SqwEngine(Engine):
         sink = self._mk_sink(scn, ctx)
         keep: dict = {}
         exc = self._create(scn, ctx, sink, keep=keep)
+        if exc is not None and exc.name == "_Unmodelable":
+            ctx.probe("refused_call_was_accepted_program_skipped")
+            return
         if exc is not None:
             ctx.violate("create_raised", f"fault-free create() raised {exc}",
                         kind="create_raised", exc=exc.name)
             return
+        if any(c["op"] == "pix_bad" for c in scn["calls"]):
+            ctx.probe("refused_builder_call_then_continued")
         self._inputs_untouched(ctx, keep, "create()")
         buf = self._bytes_of(scn, sink)
         ctx.log("file", len(buf), core.h64(buf))
@@ -602,7 +633,8 @@ class SqwEngine(Engine):
                 self._inputs_untouched(ctx, keep, "the second create()")
 
         # ---- differential: permuted builder calls -------------------------------
-        if scn.get("permute_seed") is not None and self.prop == "C12":
+        if scn.get("permute_seed") is not None and self.prop == "C12" and not any(
+                c["op"] == "pix_bad" for c in scn["calls"]):
             self._permuted_twin(scn, ctx, fin, dec)
 
         # ---- create() again on the same path ------------------------------------
